@@ -534,24 +534,16 @@ func (m *Mast) SeekIter(ctx context.Context, k interface{}, f func(interface{}, 
 	if err != nil {
 		return err
 	}
-	keyLayer, err := m.keyLayer(k, m.branchFactor)
-	if err != nil {
-		return fmt.Errorf("layer: %w", err)
-	}
-	options := findOptions{
-		targetLayer:   uint8min(keyLayer, m.height),
-		currentHeight: m.height,
-	}
-	node, i, err := node.findNode(ctx, m, k, &options)
+	// seek like Cursor.Ceil: descend towards k until it is found or the
+	// subtree that would hold it is absent; every path entry is then left
+	// at the first key not smaller than k in its node.
+	seek := Cursor{m: m, path: []pathEntry{{node, 0}}}
+	err = seek.Ceil(ctx, k)
 	if err != nil {
 		return err
 	}
-	if i >= len(node.Key) ||
-		options.targetLayer != options.currentHeight {
-		return nil
-	}
-	for i := len(options.path) - 1; i >= 0; i-- {
-		entry := options.path[i]
+	for i := len(seek.path) - 1; i >= 0; i-- {
+		entry := seek.path[i]
 		err = entry.node.seekIter(ctx, entry.linkIndex, f, m)
 		if err == ErrIterDone {
 			return nil
